@@ -58,6 +58,10 @@ func (vc *ConnCursor) Rowid() (int64, error) {
 	return 0, nil
 }
 
+// connTimeFormat shows a time as it was set: parsing accepts a fraction of a
+// second after s3db.SQLiteTimeFormat, so showing must not drop it.
+const connTimeFormat = s3db.SQLiteTimeFormat + ".999999999"
+
 func (vc *ConnCursor) Column(context *sqlite.VirtualTableContext, i int) error {
 	if context.NoChange() {
 		// Column not assigned by the UPDATE in progress: leave the result
@@ -72,13 +76,13 @@ func (vc *ConnCursor) Column(context *sqlite.VirtualTableContext, i int) error {
 		if vc.vm.sc.deadline.IsZero() {
 			context.ResultNull()
 		} else {
-			context.ResultText(vc.vm.sc.deadline.Format(s3db.SQLiteTimeFormat))
+			context.ResultText(vc.vm.sc.deadline.Format(connTimeFormat))
 		}
 	case 1:
 		if vc.vm.sc.writeTime.IsZero() {
 			context.ResultNull()
 		} else {
-			context.ResultText(vc.vm.sc.writeTime.Format(s3db.SQLiteTimeFormat))
+			context.ResultText(vc.vm.sc.writeTime.Format(connTimeFormat))
 		}
 	default:
 		context.ResultError(fmt.Errorf("unhandled column %d", i))
